@@ -4,7 +4,45 @@ COMMON_ASSUME = [
     "the Lean model is hand-written; it is tied to the Rust code only by the correspondence this check runs",
 ]
 
+_DELTA_ASSUME = COMMON_ASSUME + [
+    "BLAKE3 is a parameter H; 'equal digests ⇒ equal bytes' is the explicit hypothesis CollisionFree H bs basis src (basis blocks × source windows)",
+    "domain: 0 < bs < 2^32 (block_size as u32), fewer than 2^32 blocks (i as u32), sizes < 2^64; files are read whole (memory not modelled)",
+    "release semantics (wrapping arithmetic; debug_assert!s off); C17's no-overflow theorems cover the checksum arithmetic",
+]
+_DELTA_TB = ["src/{sync,async_sync,signature,delta,checksum}.rs are exercised through the copia crate's public API (path dependency on the tree under test); "
+             "the CLI commands through the real `copia` binary built from the same tree"]
+
 PROPS = {
+    "C01": dict(
+        modules=["Copia.Props.C01"], namespaces=["Copia.C01"], runner="rust", needs_cli=True,
+        assumptions=_DELTA_ASSUME, trusted_base=_DELTA_TB,
+        level_text="Kernel-checked theorems for ALL basis/source byte strings and ALL positive block sizes: patch(basis, delta(signature(basis), src)) = ok src "
+                   "(or H collides on an explicit pair), delta well-formedness (declared size/checksum, lengths sum, copies inside the basis), sync_files for absent/identical/differing destination. "
+                   "One model function per operation; that the sync engine, the async engine, sequential and rayon signature paths, the CLI file chain and `copia sync` all equal it "
+                   "is shown by the differential correspondence (exact op lists), incl. >64 KiB inputs, repeated and weak-colliding blocks, non-legal block sizes at library level.",
+        level_note="Trusts Lean's kernel (propext, Classical.choice, Quot.sound), the hand-written model, the harness; BLAKE3 collision-freeness is an explicit hypothesis.",
+        technique="Lean 4 proof (loop invariant by induction on fuel: accumulated ops denote the consumed prefix) + differential correspondence across engines",
+    ),
+    "C05": dict(
+        modules=["Copia.Props.C05"], namespaces=["Copia.C05"], runner="rust", needs_cli=True,
+        assumptions=_DELTA_ASSUME + ["a hostile copy length makes the real code allocate `len` bytes before reading (resource question, observed not proved)"],
+        trusted_base=_DELTA_TB,
+        level_text="Kernel-checked theorems for ALL (basis, delta) with no well-formedness hypothesis: success ⇒ H(output) = delta.checksum; success ⇒ validation passed and every read was inside the real basis; "
+                   "an invalid delta writes nothing. Tie: thousands of single and combined corruptions of valid (basis, delta) pairs through both engines and `copia patch` (verdict + bytes written compared with the model).",
+        level_note="Trusts Lean's kernel, the hand-written model of patch/validate, the harness. Memory behaviour (vec![0; len]) is outside the model.",
+        technique="Lean 4 proof (direct from the model's definition, induction over ops for bounds) + differential correspondence on corrupted inputs",
+    ),
+    "C16": dict(
+        modules=["Copia.Props.C16"], namespaces=["Copia.C16"], runner="rust", needs_cli=False,
+        assumptions=_DELTA_ASSUME + ["block sizes 0 < bs ≤ 65536 and byte-valued sources (the C17 domain) for the checksum-threading invariant",
+                                     "edit_bound (k + 2 blocks) is stated (EditBoundStatement) but not proved; it is checked on the implementation by the oracle"],
+        trusted_base=_DELTA_TB,
+        level_text="Kernel-checked theorem for ALL basis/source and ALL block sizes ≤ 65536: the delta's op list EQUALS the textbook greedy scan's (plain byte equality, no checksums) — hence no more literal bytes; "
+                   "identical files cost < one block. The proof threads C17's rolling-checksum invariant through the scan (weak hash = window checksum; signature-side hash equal for equal bytes), "
+                   "so a checksum defect breaks it. Tie: exact op lists + literal counts vs an independent greedy reference, all eight legal block sizes, high-sum content, matches after >5000 slides.",
+        level_note="Trusts Lean's kernel, the models of the scan and both checksum types, the harness. The k+2-blocks edit bound is oracle-checked only (partial).",
+        technique="Lean 4 proof (scan = textbook by induction with the Good checksum invariant from C17) + differential correspondence",
+    ),
     "C17": dict(
         modules=["Copia.Props.C17"], namespaces=["Copia.C17"], runner="rust",
         assumptions=COMMON_ASSUME + [
